@@ -215,7 +215,9 @@ def enrich_fromaudits(report_: richreports.report, atok) -> richreports.report:
 
         elif isinstance(a, ast.FunctionDef):
             (start, end) = locations(report_, atok, a)
-            enrich_keyword(report_, start, 3)
+            # The keyword is where "def" is: the node's own position, after any
+            # decorators (the token range of the node starts at the first decorator).
+            enrich_keyword(report_, richreports.location((a.lineno, a.col_offset)), 3)
             if isinstance(r, SyntaxRestriction):
                 enrich_syntaxrestriction(report_, r, start, end)
 
